@@ -4,6 +4,7 @@
 -/
 import KiraModel.Exec.SuiteUnits
 import KiraModel.Exec.SuiteParam
+import KiraModel.Exec.SuiteModulator
 
 open K.Exec
 
@@ -20,6 +21,8 @@ def suiteOf (name : String) : Option Suite :=
   match name with
   | "units" => some (statelessSuite unitsStep)
   | "param" => some { σ := ParamState, init := {}, step := paramStep }
+  | "lfo" => some { σ := LfoSt, init := {}, step := lfoStep }
+  | "tweener" => some { σ := TweenerSt, init := {}, step := tweenerStep }
   | _ => none
 
 def tokens (line : String) : List String :=
